@@ -119,7 +119,9 @@ func (p *PostingsList) OrInto(receiver *roaring.Bitmap) {
 // Iterator returns an iterator for this postings list
 func (p *PostingsList) Iterator(includeFreq, includeNorm, includeLocs bool,
 	prealloc segment.PostingsIterator) (segment.PostingsIterator, error) {
-	if p.normBits1Hit == 0 && p.postings == nil {
+	// a reused list that now stands for an absent term or an unknown field
+	// keeps its (cleared) bitmap but may have no segment to read from
+	if p.normBits1Hit == 0 && (p.postings == nil || p.postings.IsEmpty()) {
 		return emptyPostingsIterator, nil
 	}
 
